@@ -2220,10 +2220,17 @@ LAYERS = {
 
 
 def nontrivial_op(layer, op, world):
+    """the operation involves a foreign namespace / a namespace change, or the container is not empty"""
     k = op[0]
+    if world.size() > 0:
+        return True
     if layer == "TL":
-        return world.size() > 0 or k not in ("new_tree", "new_tree_foreign_ns", "read_foreign_ns", "update", "slice")
-    return True
+        return k not in ("new_tree", "new_tree_foreign_ns", "read_foreign_ns", "update", "slice", "reconstruct")
+    if layer == "DS":
+        return k in ("read", "add_tl", "add_cm", "new_tl", "new_cm")
+    if layer == "CM":
+        return k in ("from_dict", "other", "clone")
+    return k not in ("read_foreign_ns",)
 
 
 def digest(key):
@@ -2324,10 +2331,7 @@ def expand(chunk, ctx):
 
 def explore(tier, runner):
     b = bounds(tier)
-    import os
     for layer in sorted(LAYERS):
-        if os.environ.get('C11_LAYERS') and layer not in os.environ['C11_LAYERS']:
-            continue
         L = LAYERS[layer]
         st = []
         for s in L["starts"](b):
